@@ -100,6 +100,8 @@ def run_extract(repo, config, out_dir, target_dir=None, keep_target=False):
         'CARGO_TARGET_DIR': target_dir,
         'CARGO_NET_OFFLINE': 'true',
     })
+    if os.environ.get('PIE_EXTRACT_JOBS'):
+        env['CARGO_BUILD_JOBS'] = os.environ['PIE_EXTRACT_JOBS']
     env.pop('RUSTC_WRAPPER', None)
     try:
         r = subprocess.run(['cargo', '+nightly', 'check', '--offline'] + args, cwd=repo, env=env,
